@@ -446,7 +446,10 @@ def working_ops(rng, tcfg, plan, up):
     """a short stream: a few input blocks, then drain"""
     n = 3000 if up <= 4 else max(8, min(2000, int(40000 / up)))
     if up < 1e-3:
-        n = int(2.6 / up) if 20000 <= 2.6 / up <= 3e6 else 20000      # where affordable: a frame owed at end-of-input, round(N*up) > floor(N*up)
+        # where affordable (SOXR_QQ, one channel: a cubic stage only): a frame owed at end-of-input, round(N*up) > floor(N*up); anything else keeps
+        # the short stream (a first version fed millions of frames to many-stage plans under ASan and reported the time-outs as hangs)
+        cheap = (int(tcfg.get("recipe", 4)) & 15) == 0 and int(tcfg.get("ch", 1)) == 1
+        n = int(2.6 / up) if cheap and 20000 <= 2.6 / up <= 3e6 else 20000
     sizes = [1, 7, 64, 500, 4096]
     ops = [cr.create_line(tcfg), "limit %d" % n]
     for _ in range(3):
